@@ -26,3 +26,19 @@ Theorem C16_relocation_refuted_legacy :
 Proof.
   exists [[97]; [98]; [99]; [100]]%N, [97]%N, [99]%N. vm_compute. discriminate.
 Qed.
+
+(* C14/C15 / F10: before the fix __setitem__ and __delitem__ removed the old
+   row from the index with the RAW id as key although the index is keyed by
+   str(id): rows whose id is a Ref or a number stayed reachable after deletion *)
+From HS Require Import Model.Grid.
+Definition legacy_unindex (m : gindex) (raw_key_matches : bool) (k : str) : gindex :=
+  if raw_key_matches then filter (fun kv => negb (str_eqb (fst kv) k)) m else m.
+Theorem C15_stale_entry_refuted_legacy :
+  exists (r : row) (k : str),
+    let m := build_index [r] in
+    (* a Ref id never equals its own string form, so nothing was removed *)
+    idx_lookup k (legacy_unindex m false k) = Some r /\ ~ In r [].
+Proof.
+  exists (mkRow 1%N (Some (IdRef [120%N] None)) 0%Z false), [64%N; 120%N].
+  vm_compute. split; [reflexivity | tauto].
+Qed.
